@@ -165,17 +165,18 @@ def golomb_consistency_algorithm(
         for i in range(ni_var_idx - 1, mark_nb - 1):
             for j in range(i + 1, mark_nb):
                 dom_idx = dom_indices_arr[index(mark_nb, i, j)]
-                shr_domains_stack[top, dom_idx, MIN] = minimal_sum[j - i]  # no offset
-                events = EVENT_MASK_MIN
-                if shr_domains_stack[top, dom_idx, MIN] == shr_domains_stack[top, dom_idx, MAX]:
-                    events |= EVENT_MASK_GROUND
-                add_propagators(
-                    triggered_propagators,
-                    not_entailed_propagators_stack[top],
-                    shr_domains_propagators,
-                    dom_idx,
-                    events,
-                )
+                if shr_domains_stack[top, dom_idx, MIN] < minimal_sum[j - i]:  # a minimum is raised, never lowered
+                    shr_domains_stack[top, dom_idx, MIN] = minimal_sum[j - i]  # no offset
+                    events = EVENT_MASK_MIN
+                    if shr_domains_stack[top, dom_idx, MIN] == shr_domains_stack[top, dom_idx, MAX]:
+                        events |= EVENT_MASK_GROUND
+                    add_propagators(
+                        triggered_propagators,
+                        not_entailed_propagators_stack[top],
+                        shr_domains_propagators,
+                        dom_idx,
+                        events,
+                    )
     return bound_consistency_algorithm(
         statistics,
         algorithms,
